@@ -47,6 +47,9 @@ def run(prog, rep, tier='quick'):
     for cplx in (False, True):
         x = C.data(cplx, label='x')
         y = C.data(cplx, n=Aff.sym('Ny'), label='y', second=True)
+        from .. import segmap as SG
+        x.seg = SG.identity('X', x.shape[0])
+        y.seg = SG.identity('Y', y.shape[0])
         itp = C.new_interp(prog)
         itp.capture_locals[f.qname] = ['x', 'y']
         v, itp = C.run_function(prog, 'correlation', 'CORRELATION', [x, y], {'maxlags': C.symint('L', 1, 'lag'), 'norm': Const('biased')}, itp=itp)
@@ -63,14 +66,41 @@ def run(prog, rep, tier='quick'):
                           'of the data: the shorter input is periodically extended, not zero-padded', loc(f.mod, e[1]))
         if rp:
             continue
+        # where the samples sit after each length equalisation (ndarray.resize / numpy.pad): at the front, zeros behind
+        for e in [e_ for e_ in itp.events if e_[0] == 'padded' and e_[3] == f.qname]:
+            pv = e[2]
+            segs = SG.normalise(pv.seg) if isinstance(pv, Num) and pv.seg is not None else None
+            c = 'placement %s [%s]' % (normalise(e[1])[:60], label)
+            if segs is None:
+                rep.undecided('pad', f.qname, c, 'index map of the padded sequence not derivable', loc(f.mod, e[1]))
+                continue
+            off = Aff(0)
+            bad_ = None
+            for sg in segs:
+                if sg.src != '0':
+                    if not (off == Aff(0) and sg.start == Aff(0) and (sg.stride == 1 or sg.n == Aff(1))):
+                        bad_ = 'sample %s sits at slot %s' % (sg.start, off)
+                    break
+                off = off + sg.n
+            tail_ok = all(sg.src == '0' for sg in segs[1:]) if segs and segs[0].src != '0' else False
+            if bad_ or not tail_ok:
+                rep.violation('pad', f.qname, c, 'the shorter input is not extended with zeros at its END (%s; map %s): every lag is '
+                              'computed against a delayed, truncated sequence' % (bad_ or 'samples are not followed by zeros only', SG.show(segs)),
+                              loc(f.mod, e[1]))
+            else:
+                rep.proved('pad', f.qname, c, 'samples first, zeros behind: %s' % SG.show(segs), loc(f.mod, e[1]))
         for var, own, other in (('x', 'x', 'y'), ('y', 'y', 'x')):
             n_pad += 1
             val = caps[-1].get(var)
             t = taint_of(val) if val is not None else frozenset()
             c = 'padded %s [%s]' % (var, label)
+            shifted = None
             if other in t:
                 rep.violation('pad', f.qname, c, 'the padded %s depends on the other sequence %s: the shorter input is replaced, '
                               'not zero-padded' % (var, other), where)
+            elif shifted:
+                rep.violation('pad', f.qname, c, 'the shorter input is not padded with zeros at its END: %s -- every lag is computed '
+                              'against a delayed (and truncated) sequence' % shifted, where)
             elif own in t:
                 rep.proved('pad', f.qname, c, 'depends on %s only' % sorted(x_ for x_ in t if not str(x_).startswith('V:')), where)
             else:
